@@ -105,7 +105,7 @@ def rule_digest(F):
     oks = _ok_exits(b)
     _digest_protocol(res, b, INV, VAL, OUT, oks, "process_file")
     # (h) the up-to-date return is taken only on a comparison of the stored digest with the digest of the current source
-    _skip_needs_comparison(res, b, oks, INV, {"build::read_digest": "STORED", "build::digest_source": "CURRENT"}, ("STORED", "CURRENT"), "process_file")
+    _skip_needs_comparison(res, b, oks, INV, {"build::read_digest": "STORED", "build::digest_source": "CURRENT"}, [("STORED", "CURRENT")], "process_file")
     res.sample({"fn": "process_file", "INV": INV, "VAL": VAL, "OUT": OUT, "ok_exits": oks})
     # ---------------- compile_component_rlib
     c = F.one("build::compile_component_rlib")
@@ -167,7 +167,7 @@ def rule_digest(F):
         else:
             res.bad("M-DIGEST:compile_component_rlib:skip-condition", c.where(sk), "the component is skipped without both the digest comparison and rlib_path.exists()")
     _skip_needs_comparison(res, c, oks, INV, {"build::parse_digest_hex": "STORED", "build::digest_source": "CURRENT", "std::path::Path::exists": "EXISTS"},
-                           ("STORED", "CURRENT", "EXISTS"), "compile_component_rlib", only=skip)
+                           [("STORED", "CURRENT"), ("EXISTS",)], "compile_component_rlib", only=skip)
     if not skip:
         res.notes.append("compile_component_rlib has no skip return")
     res.sample({"fn": "compile_component_rlib", "INV": INV, "VAL": VAL, "OUT": OUT, "ok_exits": oks, "skip": skip})
@@ -260,7 +260,7 @@ def _skip_needs_comparison(res, b, oks, INV, sources, need, fname, only=None):
     if only is not None:
         exits = [x for x in exits if x in only]
     for x in exits:
-        covered = set()
+        deciding = []
         for sw, bl in enumerate(b.blocks):
             tt = bl["t"]
             if tt["k"] != "switch" or not b.dominates(sw, x):
@@ -268,11 +268,12 @@ def _skip_needs_comparison(res, b, oks, INV, sources, need, fname, only=None):
             succs = b.succ(sw)
             reach = [s_ for s_ in succs if x in b.reach([s_], avoid=set(INV))]
             if len(reach) < len(succs):
-                covered |= t.read_op(tt["d"])
-        missing = [n for n in need if n not in covered]
+                deciding.append(t.read_op(tt["d"]))
+        # each group of labels must meet in ONE deciding test (a comparison of the stored with the current digest)
+        missing = [grp for grp in need if not any(all(lab in labs for lab in grp) for labs in deciding)]
         if missing:
-            res.bad("M-DIGEST:%s:skip-not-decided-by:%s" % (fname, "+".join(missing)), b.where(x),
-                    "%s returns Ok without rebuilding on a path that is not decided by %s" % (fname, ", ".join(missing)))
+            res.bad("M-DIGEST:%s:skip-not-decided-by:%s" % (fname, "/".join("+".join(g) for g in missing)), b.where(x),
+                    "%s returns Ok without rebuilding on a path not decided by a test that combines %s" % (fname, " and ".join("+".join(g) for g in missing)))
         else:
             res.ok()
 
@@ -434,10 +435,8 @@ PANIC_AUDITED_SITES = {
         ("`source[line_begin..line_end]` with bounds from line_locations, which cuts only at \\n and \\r (ASCII); M-LINES forbids offsets computed from lines()", None),
     ("panic", "core::panicking::panic", "grammar_util::Location::intersect"):
         ("debug_assert!(self.is_empty() || other.is_empty()) in the else branch of `if !self.is_empty() && !other.is_empty()`: a tautology", None),
-    ("panic", "core::panicking::panic_fmt", "source_display::SourceDisplay::fmt"):
-        ("`no line intersects the location`: unreachable because the location is clamped to [0, len] and the line table includes the line at len", _requires_end_clamp),
     ("unwrap", "std::option::Option::unwrap", "source_display::SourceDisplay::fmt"):
-        ("`nums_locs.clone().next().unwrap()` after the maximum over the same iterator was Some", None),
+        ("`nums_locs.clone().next().unwrap()` after the maximum over the same (cloned) iterator was Some: the iterator is non-empty", None),
 }
 
 
@@ -481,8 +480,21 @@ def rule_lines(F):
             res.bad("M-LINES:text-rejoined-from-lines", b.where(), "%s rebuilds the text from str::lines() joined with a constant separator; offsets into it do not match the original text" % p)
         else:
             res.ok()
+    # (iii) locations are byte offsets: the offset-preserving pre-pass (whipe_comments) and the line table must not count
+    # characters (a multi-byte character would shift every later location)
+    byte_domain = [b_ for nm in ("build::whipe_comments", "source_display::line_locations") for b_ in F.find(nm)]
+    if len(byte_domain) < 2:
+        raise AnchorError("whipe_comments / line_locations not found")
+    for b_ in byte_domain:
+        for bd in [b_] + F.closures_of(b_):
+            hits = [bb for bb, t in bd.calls() if re.search(r"str::(chars|char_indices)$", short(callee(t)))]
+            if hits:
+                res.bad("M-LINES:characters-counted-in-byte-offset-domain", bd.where(hits[0]),
+                        "%s iterates over characters; locations are byte offsets and a multi-byte character shifts every later one" % bd.path)
+            else:
+                res.ok()
     res.counts["bodies_using_lines"] = n
-    res.sample({"bodies_using_str_lines": n})
+    res.sample({"bodies_using_str_lines": n, "byte_offset_domain": [b_.path for b_ in byte_domain]})
     return res
 
 
